@@ -150,6 +150,20 @@ class ThreadFrame(object):
         return ThreadFrame(self.prev_thread, self.dest, self.target)
 
 
+class ScriptFrame(object):
+    """pseudo frame of a summary that performs several calls in sequence and then returns a value"""
+    __slots__ = ("pending", "final", "dest", "target")
+
+    def __init__(self, pending, final, dest, target):
+        self.pending = pending
+        self.final = final
+        self.dest = dest
+        self.target = target
+
+    def copy(self):
+        return ScriptFrame(list(self.pending), self.final, self.dest, self.target)
+
+
 class Token(object):
     pass
 
